@@ -346,3 +346,7 @@ V("C08-s-sort-equiv", "C08", "silent", (DS, "order = D.ar_numpy.argsort(D.ar_num
 V("C11-e-signed-residual", "C11", "C11.3", (ITY, 'self.solver_dict["newton_iteration_success"] and prec < desired_tol', 'self.solver_dict["newton_iteration_success"] and timestep * prec < desired_tol'))
 V("C17-k-vec-cast", "C17", "C17.5", (UTL, "    val = D.ar_numpy.asarray(val)\n    array = D.ar_numpy.asarray(array)\n    i64_type", "    array = D.ar_numpy.asarray(array)\n    val = D.ar_numpy.asarray(val, dtype=array.dtype)\n    i64_type"))
 V("C10-h-cached-slope", "C10", "C10.4", (ITY, "                self.initial_rhs = rhs(current_time, initial_state + self.dState, **constants)\n                aux = timestep * self.initial_rhs", "                if self.initial_rhs is None:\n                    self.initial_rhs = rhs(current_time, initial_state + self.dState, **constants)\n                aux = timestep * self.initial_rhs"))
+V("C05-k-rich-noretry", "C05", "C05.5", (ITY, "            if redo_step:\n                timestep, (self.dTime, self.dState) = self(rhs, initial_time, initial_state, constants,\n                                                           next_timestep)\n            else:\n                timestep = next_timestep", "            timestep = next_timestep"))
+V("C05-l-rich-retry-same", "C05", "C05.5", (ITY, "                timestep, (self.dTime, self.dState) = self(rhs, initial_time, initial_state, constants,\n                                                           next_timestep)", "                timestep, (self.dTime, self.dState) = self(rhs, initial_time, initial_state, constants,\n                                                           dt0)"))
+V("C05-m-rich-redo-cleared", "C05", "C05.5", (ITY, "            else:\n                next_timestep = new_timestep\n", "            else:\n                next_timestep = new_timestep\n                redo_step = False\n"))
+V("C05-n-rich-estimate", "C05", "C05.5", (ITY, "self.stage_values[m - 1, n - 1]), self.stage_values[m - 1, m - 1] - self.stage_values[m, m]", "self.stage_values[m - 1, n - 1]), self.stage_values[m - 1, m - 1] - self.stage_values[m - 1, m - 2]"))
